@@ -302,6 +302,18 @@ def sites(repo):
                 out += FnScan(fn, f).scan()
         for fn in [n for n in mod.body if isinstance(n, ast.FunctionDef)]:
             out += FnScan(fn, f).scan()
+    # process-salted builtins: hash() of text and id() differ from one process / hash seed to the next, so a value derived from them must not reach generated SQL.
+    # Any call outside a __hash__ / __eq__ method, in the generator, the rewriter and the core package, is listed as a Raw site (the obligation then fails).
+    import glob
+    for path in sorted(glob.glob(os.path.join(repo, "sidemantic/sql/*.py")) + glob.glob(os.path.join(repo, "sidemantic/core/*.py")) + [os.path.join(repo, "sidemantic/validation.py")]):
+        rel = os.path.relpath(path, repo)
+        if rel.endswith("preagg_recommender.py"):
+            continue                                   # the recommender is not on the compile path
+        mod = ast.parse(open(path).read())
+        for fn in [n for n in ast.walk(mod) if isinstance(n, ast.FunctionDef) and n.name not in ("__hash__", "__eq__")]:
+            for n in ast.walk(fn):
+                if isinstance(n, ast.Call) and isinstance(n.func, ast.Name) and n.func.id in ("hash", "id"):
+                    out.append((rel, fn.name, n.lineno, ast.unparse(n)[:60], "Raw"))
     # a nested function is walked with its parent AND (if it were top-level) alone; de-duplicate
     seen, res = set(), []
     for s in out:
